@@ -35,6 +35,7 @@ type Prog struct {
 	Cmd     *packages.Package
 	AllFns  map[*ssa.Function]bool // every function incl. anonymous, instances
 	SrcFns  []*ssa.Function        // repo source functions (non-instance), sorted
+	rx      *regexTable
 }
 
 // Eco is one ecosystem package, discovered by shape.
